@@ -320,7 +320,7 @@ PROPERTY = {
     "level": "other",
     "explanation": "IonQ JSON: round trip proved per gate kind for every parameter value (symbolic parameter, dictionaries are within the verifier's subset). ProjectQ command "
                    "text, repr/eval and operator conversion go through regular expressions, string formatting, eval and cirq objects, which the SMT back ends do not "
-                   "decide: they are executed from the AST on an enumerated set of concrete circuits (bounded).",
+                   "decide: they are executed from the AST on an enumerated set of concrete circuits (bounded). Unbounded: the IonQ writer and reader loops for circuits of ANY length with symbolic qubit indices (P1): the reader applied to the writer's entry for a generic gate gives the gate back.",
     "bounds": {"quick": "IonQ: 20 gate kinds x 2 placements x 1-2 controls x fixed width or not; ProjectQ: 11 gate kinds x indices {0,1,7,12} x 5 parameter values x widths with idle top qubits; repr: 10 names x 8 parameter kinds",
                "thorough": "same, all repr combinations"},
     "assumptions": ["OpenQASM / qiskit / braket / projectq operator formats: packages absent in this sandbox - not checked", "text formats: bounded enumeration only"],
